@@ -1,3 +1,4 @@
 (* C17 — everything Props/C17.v states: the converters on the loaded tables (Proofs/C17_main.v and the
-   files it exports) and the initialisation paths (Proofs/C17_init.v). *)
-From Verif Require Export Proofs.C17_main Proofs.C17_init.
+   files it exports), the initialisation paths (Proofs/C17_init.v) and the whole start-up with time zone and
+   linked table paths (Proofs/C17_start.v). *)
+From Verif Require Export Proofs.C17_main Proofs.C17_init Proofs.C17_start.
